@@ -10,6 +10,16 @@
 //
 // Only these observables are compared with the prediction.
 //
+// Names.  The model's files f1 f2 f3 and directory d1 live in the work
+// directory; act.cls selects how the program spells the path: "lit" /
+// "computed" (the absolute path, written literally / concatenated at run time),
+// "rel" (./<path relative to the process's working directory>), "dotdot"
+// (<dir>/../w/f1) and "devdd" (/dev/..<dir>/f1, computed).  The OpenFile
+// wrapper records the file a call DENOTES (the cleaned absolute path), not its
+// spelling.  /dev/null is itself.  The commands "empty", "blank" and "spcat"
+// are the command lines "", "  " and "  cat".  Config.NewlineOutput is set
+// from cfg.nlmode ("raw", "crlf", "smart" / absent = the default).
+//
 // A SESSION (fam "session") is a sequence of such runs on ONE interp.Interpreter
 // (interp.New once, Execute per run), each Execute with the Config of its own
 // run: own flags, own OpenFile wrapper (or none), own output writers; the work
@@ -44,8 +54,9 @@ type Cfg struct {
 	NR     bool     `json:"nr"`
 	Custom bool     `json:"custom"`
 	FailAt int      `json:"failAt"`
-	WKind  string   `json:"wkind"` // "plain" | "bufio3" | "bufio16" | "bufio4096": Config.Output
-	OMode  string   `json:"omode"` // "default" | "csv" | "tsv": Config.OutputMode
+	WKind  string   `json:"wkind"`  // "plain" | "bufio3" | "bufio16" | "bufio4096": Config.Output
+	OMode  string   `json:"omode"`  // "default" | "csv" | "tsv": Config.OutputMode
+	NLMode string   `json:"nlmode"` // "raw" | "crlf" | "smart": Config.NewlineOutput
 	Stdin  []hx.BS  `json:"stdin"`
 	Pre    []string `json:"pre"`
 }
@@ -57,6 +68,8 @@ type Act struct {
 	Dest string `json:"dest,omitempty"`
 	Mode string `json:"mode,omitempty"`
 	Form string `json:"form,omitempty"`
+	// Shape of the string argument of a print action: "" / "plain", "nl", "mid", "midnl", "crlf"
+	Shape string `json:"shape,omitempty"`
 }
 
 type Open struct {
@@ -138,16 +151,99 @@ func exit3Text(ctl string) string { return exit3Head + "3" + exit3Tail + ctl }
 // its standard output.
 func showf1Text(dir string) string { return "cat '" + dir + "/f1' 2>/dev/null" }
 
+var (
+	cwdOnce sync.Once
+	cwdPath string
+)
+
+func cwd() string {
+	cwdOnce.Do(func() {
+		d, err := os.Getwd()
+		if err != nil {
+			panic(err)
+		}
+		cwdPath = d
+	})
+	return cwdPath
+}
+
+// spelled returns the path of the entry `base` of the work directory in the spelling cls.
+func spelled(dir, base, cls string) string {
+	switch cls {
+	case "rel":
+		r, err := filepath.Rel(cwd(), dir)
+		if err != nil {
+			panic(err)
+		}
+		return "./" + r + "/" + base
+	case "dotdot":
+		return dir + "/../" + filepath.Base(dir) + "/" + base
+	case "devdd":
+		return "/dev/.." + dir + "/" + base
+	}
+	return dir + "/" + base
+}
+
+// denoted maps a name handed to the open-file function to the model's name of the file it denotes.
+func denoted(name, dir string) string {
+	if name == "" {
+		return name
+	}
+	abs := name
+	if !filepath.IsAbs(abs) {
+		abs = filepath.Join(cwd(), abs)
+	}
+	abs = filepath.Clean(abs)
+	if filepath.Dir(abs) == dir {
+		return filepath.Base(abs)
+	}
+	if abs == "/dev/null" {
+		return abs
+	}
+	return name
+}
+
+const (
+	emptyText = ""
+	blankText = "  "
+	spcatText = "  cat"
+)
+
 // nameExpr renders a name as an AWK expression; D is the AWK variable holding
 // the work directory, C the one holding the control directory.
 func nameExpr(n, cls, dir, ctl string) string {
 	comp := cls == "computed"
 	switch n {
-	case "f1", "f2", "f3":
-		if comp {
-			return `(D "/" "f" ` + n[1:] + `)`
+	case "f1", "f2", "f3", "d1":
+		switch cls {
+		case "computed":
+			return `(D "/" "` + n[:1] + `" ` + n[1:] + `)`
+		case "devdd":
+			return `("/dev/.." D "/` + n + `")`
+		case "dotdot":
+			return `(D "/../` + filepath.Base(dir) + `/` + n + `")`
 		}
-		return hx.AwkString([]byte(dir + "/" + n))
+		return hx.AwkString([]byte(spelled(dir, n, cls)))
+	case "/dev/null":
+		if comp {
+			return `("/dev/" "null")`
+		}
+		return `"/dev/null"`
+	case "empty":
+		if comp {
+			return `substr("x", 2)`
+		}
+		return `""`
+	case "blank":
+		if comp {
+			return `sprintf("%2s", "")`
+		}
+		return `"  "`
+	case "spcat":
+		if comp {
+			return `(sprintf("%2s", "") "cat")`
+		}
+		return `"  cat"`
 	case "-":
 		if comp {
 			return `substr("x-", 2)`
@@ -186,13 +282,28 @@ func nameExpr(n, cls, dir, ctl string) string {
 // marks adds mark(i) after action i.  operand reports the file operand, if any.
 func renderBody(sb *strings.Builder, acts []Act, dir, ctl string, marks bool, indent string) (args []string, mainRule, ok bool) {
 	gone := 0 // processes of exit3 started so far in this run
+	argvAtRunTime := false
 	exit3Open := false
 	for i, a := range acts {
 		pay := string(rune(96 + i + 1))
+		up := string(rune(64 + i + 1))
 		nm := nameExpr(a.Name, a.Cls, dir, ctl)
 		var s string
 		switch a.Op {
 		case "print":
+			switch a.Shape {
+			case "", "plain":
+			case "nl":
+				pay += `\n`
+			case "mid":
+				pay += `\n` + up
+			case "midnl":
+				pay += `\n` + up + `\n`
+			case "crlf":
+				pay += `\r\n` + up
+			default:
+				return nil, false, false
+			}
 			stmt := `print "` + pay + `"`
 			switch a.Form {
 			case "printf":
@@ -241,10 +352,30 @@ func renderBody(sb *strings.Builder, acts []Act, dir, ctl string, marks bool, in
 			s = `gl = ""; gr = (` + nm + ` | getline gl); note("getline", gr, gl)`
 		case "operand":
 			mainRule = true
-			if a.Name == "-" {
-				args = []string{"-"}
-			} else {
-				args = []string{dir + "/" + a.Name}
+			if a.Cls == "computed" {
+				argvAtRunTime = true
+			}
+			if argvAtRunTime {
+				// the program itself appends the operand to ARGV (in BEGIN; no mark: the operand is read afterwards)
+				var ex string
+				switch a.Name {
+				case "":
+					ex = `substr("x", 2)`
+				case "v=1":
+					ex = `("v=" 1)`
+				default:
+					ex = nameExpr(a.Name, a.Cls, dir, ctl)
+				}
+				sb.WriteString(indent + "ARGV[ARGC++] = " + ex + "\n")
+				continue
+			}
+			switch a.Name {
+			case "-", "", "v=1":
+				args = append(args, a.Name)
+			case "/dev/null":
+				args = append(args, a.Name)
+			default:
+				args = append(args, spelled(dir, a.Name, a.Cls))
 			}
 			continue
 		case "exit":
@@ -469,6 +600,9 @@ func RunSession(runs []RunIn, o RunOpts) ([]*Obs, string) {
 		panic(err)
 	}
 	defer os.RemoveAll(root)
+	if err := os.Mkdir(filepath.Join(dir, "d1"), 0o755); err != nil {
+		panic(err)
+	}
 	for _, n := range runs[0].Cfg.Pre {
 		if err := os.WriteFile(filepath.Join(dir, n), []byte("o\n"), 0o644); err != nil {
 			panic(err)
@@ -577,6 +711,12 @@ func RunSession(runs []RunIn, o RunOpts) ([]*Obs, string) {
 			Funcs:        funcs,
 			Environ:      []string{},
 		}
+		switch rc.NLMode {
+		case "raw":
+			cfg.NewlineOutput = interp.RawNewlineMode
+		case "crlf":
+			cfg.NewlineOutput = interp.CRLFNewlineMode
+		}
 		switch rc.OMode {
 		case "csv":
 			cfg.OutputMode = interp.CSVMode
@@ -599,10 +739,7 @@ func RunSession(runs []RunIn, o RunOpts) ([]*Obs, string) {
 		if rc.Custom {
 			me := k
 			cfg.OpenFile = func(name string, flag int, perm os.FileMode) (*os.File, error) {
-				n := name
-				if filepath.Dir(name) == dir {
-					n = filepath.Base(name)
-				}
+				n := denoted(name, dir)
 				mu.Lock()
 				if cur == me {
 					all[me].Opens = append(all[me].Opens, Open{n, openClass(flag)})
@@ -637,7 +774,11 @@ func RunSession(runs []RunIn, o RunOpts) ([]*Obs, string) {
 		}
 		obs.Stderr = errb.Bytes()
 		if b, err := os.ReadFile(filepath.Join(ctl, "starts.log")); err == nil {
-			lines := strings.Split(strings.TrimRight(string(b), "\n"), "\n")
+			// one line per start (a command line without a command gives an empty or blank line)
+			var lines []string
+			if len(b) > 0 {
+				lines = strings.Split(strings.TrimSuffix(string(b), "\n"), "\n")
+			}
 			from := startsSeen
 			if from > len(lines) {
 				from = len(lines)
@@ -652,6 +793,12 @@ func RunSession(runs []RunIn, o RunOpts) ([]*Obs, string) {
 					obs.Starts = append(obs.Starts, "exit3")
 				case showf1Text(dir):
 					obs.Starts = append(obs.Starts, "showf1")
+				case emptyText:
+					obs.Starts = append(obs.Starts, "empty")
+				case blankText:
+					obs.Starts = append(obs.Starts, "blank")
+				case spcatText:
+					obs.Starts = append(obs.Starts, "spcat")
 				default:
 					obs.Starts = append(obs.Starts, "?"+l)
 				}
@@ -663,6 +810,9 @@ func RunSession(runs []RunIn, o RunOpts) ([]*Obs, string) {
 		}
 		ents, _ := os.ReadDir(dir)
 		for _, e := range ents {
+			if e.Name() == "d1" && e.IsDir() {
+				continue
+			}
 			if _, known := obs.Files[e.Name()]; !known {
 				obs.Extra = append(obs.Extra, e.Name())
 				continue
